@@ -41,6 +41,7 @@ type Desc struct {
 	Max    uint64  `json:"max,omitempty"`    // bytes / vec
 	TagRev bool    `json:"tagrev,omitempty"` // write maxlen before minlen in the tag
 	Elem   *Desc   `json:"elem,omitempty"`   // vec element
+	Ref    string  `json:"ref,omitempty"`    // K == "ref": name of a static type (static.go)
 	Fields []Field `json:"fields,omitempty"` // struct
 }
 
@@ -112,6 +113,7 @@ func intWidth(k string) int {
 
 // minWidth is the smallest number of bytes any value of d encodes to.
 func (d *Desc) minWidth() uint64 {
+	d = d.res()
 	switch d.K {
 	case KU8, KU16, KU24, KU32, KU64:
 		return uint64(intWidth(d.K))
@@ -135,13 +137,22 @@ func (d *Desc) minWidth() uint64 {
 }
 
 // nodes counts descriptor nodes (used to scale the allocation bound).
-func (d *Desc) nodes() int {
+func (d *Desc) nodes() int { return d.nodesN(1) }
+
+// nodesN follows references to static types `follow` levels deep (recursive types are cyclic).
+func (d *Desc) nodesN(follow int) int {
+	if d.K == KRef {
+		if follow == 0 {
+			return 1
+		}
+		return d.res().nodesN(follow - 1)
+	}
 	n := 1
 	if d.Elem != nil {
-		n += d.Elem.nodes()
+		n += d.Elem.nodesN(follow)
 	}
 	for i := range d.Fields {
-		n += d.Fields[i].D.nodes()
+		n += d.Fields[i].D.nodesN(follow)
 	}
 	return n
 }
@@ -149,6 +160,12 @@ func (d *Desc) nodes() int {
 // validate says whether d lies in the supported domain of the property (DESIGN.md C09): the documented tag
 // grammar, no zero-width vector elements, no maxlen:0, no badly annotated variants.
 func (d *Desc) validate(ctx int, depth int) error {
+	if d.K == KRef {
+		if staticByName(d.Ref) == nil {
+			return fmt.Errorf("unknown static type %q", d.Ref)
+		}
+		return nil // static types are declared inside the domain
+	}
 	if depth > 6 {
 		return fmt.Errorf("too deep")
 	}
@@ -264,6 +281,8 @@ func (d *Desc) tag() string {
 // goType realises d as a Go type.
 func (d *Desc) goType() reflect.Type {
 	switch d.K {
+	case KRef:
+		return staticByName(d.Ref).Type
 	case KU8:
 		return tU8
 	case KU16:
@@ -313,6 +332,8 @@ func (d *Desc) goType() reflect.Type {
 // String renders the type in (roughly) Go syntax for messages.
 func (d *Desc) String() string {
 	switch d.K {
+	case KRef:
+		return d.Ref
 	case KEnum:
 		return fmt.Sprintf("Enum%s`%s`", []string{"", "A", "B"}[d.Alias%3], d.tag())
 	case KArray:
@@ -344,6 +365,7 @@ func (d *Desc) String() string {
 // toReflect builds the Go value of type t (= d.goType()) that v denotes. It never validates: invalid values
 // (wrong lengths, over-wide enums, wrong arms) must be representable so that Marshal can refuse them.
 func toReflect(d *Desc, v *Val, t reflect.Type) reflect.Value {
+	d = d.res()
 	rv := reflect.New(t).Elem()
 	switch d.K {
 	case KU8, KU16, KU24, KU32, KU64, KEnum:
@@ -390,6 +412,7 @@ func toReflect(d *Desc, v *Val, t reflect.Type) reflect.Value {
 
 // fromReflect reads a Go value back into the neutral Val form (nil and empty slices are the same value).
 func fromReflect(d *Desc, rv reflect.Value) Val {
+	d = d.res()
 	var v Val
 	switch d.K {
 	case KU8, KU16, KU24, KU32, KU64, KEnum:
@@ -428,6 +451,7 @@ func fromReflect(d *Desc, rv reflect.Value) Val {
 
 // eqVal compares two values of type d structurally (slice nil-ness is not part of the value).
 func eqVal(d *Desc, a, b *Val) bool {
+	d = d.res()
 	switch d.K {
 	case KU8, KU16, KU24, KU32, KU64, KEnum:
 		return a.U == b.U
